@@ -92,13 +92,13 @@ class Resolver:
         return out
 
     def resolve(self, f: FuncInfo, call: ast.Call) -> List[Target]:
-        k = id(call)
         if not hasattr(self, '_rcache'):
-            self._rcache = {}
-        if k in self._rcache:
-            return self._rcache[k]
-        r = self._resolve(f, call)
-        self._rcache[k] = r
+            import weakref
+            self._rcache = weakref.WeakKeyDictionary()       # keyed by the call node object (ids are reused after collection)
+        r = self._rcache.get(call)
+        if r is None:
+            r = self._resolve(f, call)
+            self._rcache[call] = r
         return r
 
     def _resolve(self, f: FuncInfo, call: ast.Call) -> List[Target]:
